@@ -580,7 +580,7 @@ theorem jinv_pushToBlock2 (P : Params) (st : St) (p : Pkt) {st' : St} {b : Bool}
                     split at h
                     · simp at h
                     · have q2 : QuietJ st { ‹St› with blocks := (‹St›).blocks.set (‹PayloadId›.sbn - st.blocksOffset) ‹Block› } :=
-                        q1.trans ⟨⟨rfl, rfl, rfl, rfl, rfl, rfl, .inl rfl⟩, ⟨rfl, rfl, rfl, rfl, rfl, rfl, rfl⟩⟩
+                        q1.trans ⟨⟨rfl, rfl, rfl, rfl, rfl, rfl, .inl rfl, rfl, rfl⟩, ⟨rfl, rfl, rfl, rfl, rfl, rfl, rfl⟩⟩
                       split at h
                       · exact jinv_writeBlocks _ _ _ (hi.quiet q2.q) (hj.sameJ q2.j) h
                       · simp at h; obtain ⟨rfl, rfl⟩ := h
